@@ -150,6 +150,9 @@ func runC16(c *Ctx) {
 	// a reply serialized into storage shared between connections can be overwritten by another
 	// client's reply before it is written: the value a client reads is then one nobody stored
 	ruleReplyBufferLocal(c, "R16.c")
+	// options built in a variable shared by all connections: another client's command can
+	// replace them between their assignment and the handler call
+	ruleNoSharedCapture(c, "R16.d")
 	c.assume("each single handler call is atomic only if the handler makes it so (R16.b checks the bundled example store)")
 }
 
